@@ -1,3 +1,4 @@
 SPECIFICATION Spec
+CONSTANT Bug = "none"
 INVARIANT Report
 CHECK_DEADLOCK FALSE
